@@ -154,6 +154,11 @@ fn step<C: Mk>(d: &mut MockDisplay<C>, out: &mut Vec<String>, tok: &str) {
         "fc" => d.fill_contiguous(&rc(f[1], f[2], f[3], f[4]), colors::<C>(f[5])).unwrap(),
         "cl" => d.clear(C::mk(u(f[1]))).unwrap(),
         "sp" => d.set_pixel(pt(f[1], f[2]), if f[3] == "n" { None } else { Some(C::mk(u(f[3]))) }),
+        "sps" => {
+            let body = tok.splitn(3, ':').nth(2).unwrap_or("");
+            let l: Vec<Point> = if body.is_empty() { vec![] } else { body.split(';').map(|s| { let g: Vec<&str> = s.split(':').collect(); pt(g[0], g[1]) }).collect() };
+            d.set_pixels(l, if f[1] == "n" { None } else { Some(C::mk(u(f[1]))) })
+        }
         "ao" => d.set_allow_overdraw(f[1] == "1"),
         "ab" => d.set_allow_out_of_bounds_drawing(f[1] == "1"),
         "gp" => out.push(d.get_pixel(pt(f[1], f[2])).map(|c| c.tag().to_string()).unwrap_or_else(|| "none".into())),
@@ -473,6 +478,20 @@ fn p_mock_hist<C: Mk>(toks: &[&str]) -> String {
                     Ok(())
                 } else { Err("setpixel") }
             }
+            "sps" => {
+                // set_pixels: point by point, the first point outside panics (the earlier ones stay set)
+                let body = tok.splitn(3, ':').nth(2).unwrap_or("");
+                let mut res = Ok(());
+                if !body.is_empty() {
+                    for s in body.split(';') {
+                        let g: Vec<&str> = s.split(':').collect();
+                        let (x, y) = (g[0].parse::<i64>().unwrap(), g[1].parse::<i64>().unwrap());
+                        if !inside(x, y) { res = Err("setpixel"); break; }
+                        if f[1] == "n" { r.map.remove(&(x as i32, y as i32)); } else { r.map.insert((x as i32, y as i32), u(f[1])); }
+                    }
+                }
+                res
+            }
             "gp" | "aa" | "dump" | "sw" | "dbg" | "mp" => Ok(()),
             _ => {
                 let ws = requested(tok).unwrap();
@@ -547,6 +566,12 @@ fn build<C: Mk>(toks: &[&str]) -> (MockDisplay<C>, Ref) {
                 let (x, y) = (f[1].parse::<i64>().unwrap(), f[2].parse::<i64>().unwrap());
                 if !inside(x, y) { continue; }
                 if f[3] == "n" { r.map.remove(&(x as i32, y as i32)); } else { r.map.insert((x as i32, y as i32), u(f[3])); }
+            }
+            "sps" => {
+                let body = tok.splitn(3, ':').nth(2).unwrap_or("");
+                let pts: Vec<(i64, i64)> = if body.is_empty() { vec![] } else { body.split(';').map(|s| { let g: Vec<&str> = s.split(':').collect(); (g[0].parse().unwrap(), g[1].parse().unwrap()) }).collect() };
+                if pts.iter().any(|p| !inside(p.0, p.1)) { continue; }
+                for (x, y) in pts { if f[1] == "n" { r.map.remove(&(x as i32, y as i32)); } else { r.map.insert((x as i32, y as i32), u(f[1])); } }
             }
             "gp" | "aa" | "dump" | "sw" | "dbg" | "mp" => continue,
             _ => { r.writes(&requested(tok).unwrap()).unwrap(); }
